@@ -715,6 +715,11 @@ class Report:
             cov.update(extra_cov)
         cov["known_findings_hit"] = dict(self.known)
         cov["skipped_float_cancellation_vs_exact_zero_denominator"] = FLOAT_CANCELLATION["skipped"]
+        try:
+            from harness import impl as _impl
+            cov["implementation_calls_retried_after_a_20s_timeout"] = _impl.RETRIED_TIMEOUTS["n"]
+        except Exception:  # noqa
+            pass
         cov["notes"] = self.notes
         lines = []
         for f in self.findings:
